@@ -120,10 +120,39 @@ def make_flaky(rng, w, o):
     o["repeat"] = rng.choice([2, 3])
 
 
+ODD_LABELS = ["\udc80sur", "caf\u00e9", "\U0001f600", "tab\there", "caf\udce9.txt"]
+
+
+def directed_names(ctx):
+    """failing tests whose names only 'backslashreplace' can write (a lone surrogate, as os.fsdecode produces for a
+    file name that is not UTF-8), reported by layer subprocesses (-j N, and resumed after a layer that cannot be torn
+    down) as well as in-process"""
+    rng = ctx.rng
+    cases = []
+    for i in range(4 if ctx.quick() else 40):
+        w = worlds.gen_world(rng, n_layers=rng.choice([2, 3]), tests_per_layer=(1, 3), p_fault=0.0, p_write=0.0,
+                             kinds=["fail", "error", "pass", "subFail"])
+        lab = ODD_LABELS[i % len(ODD_LABELS)] if i >= 2 else ODD_LABELS[0]
+        for t in w["tests"]:
+            t.pop("rebind", None)
+            t.pop("ownstream", None)
+            t["label"] = lab
+        o = {"verbose": rng.choice([1, 2])}
+        if i % 2 == 0:
+            o["processes"] = 2
+        else:
+            real = [l for l in w["layers"] if l["kind"] != "unit"]
+            if real:
+                real[0]["tearDown"] = True
+                real[0]["tearDownFaults"] = [[0, 2]]      # NotImplementedError: later layers run in subprocesses
+        cases.append(cw.Case(w, o, "directed:odd-names"))
+    return cases
+
+
 def gen_cases(ctx):
     rng = ctx.rng
     n = 80 if ctx.quick() else 2000
-    cases = []
+    cases = directed_names(ctx)
     for i in range(n):
         w = worlds.gen_world(rng, tests_per_layer=(0, 4), p_fault=0.15, p_write=0.0, import_errors=True)
         if rng.random() < 0.3:
